@@ -28,6 +28,16 @@ pub fn cause_op2(g: &mut G, id: Id, k: KindTag) -> Option<Op> {
             g.next_id += n;
             Some(Op::ScheduleMany { exec: id, base, n })
         }
+        KindTag::Executor if g.rng.chance(1, 6) => {
+            let task = g.fresh();
+            g.tasks.push(task);
+            let dl = match g.rng.below(4) {
+                0 => Deadline::Immediate,
+                1 => Deadline::At(g.rng.below(80) * crate::gen::MS),
+                _ => Deadline::In(g.rng.range(0, 40) * crate::gen::MS),
+            };
+            Some(Op::ScheduleTimeout { exec: id, task, dl })
+        }
         KindTag::Executor => {
             if g.tasks.is_empty() || g.rng.chance(1, 2) {
                 let task = g.fresh();
@@ -143,16 +153,21 @@ pub fn signal_op(g: &mut G) -> Option<Op> {
 /// Retarget some CancelIdle / DropIdle operations to any idle of the whole program, including
 /// ones inserted later (an earlier idle cancelling a later idle of the same dispatch).
 pub fn retarget_idles(g: &mut G, ops: &mut Vec<Op>) {
-    if g.idles.is_empty() {
-        return;
-    }
-    let all = g.idles.clone();
+    let all = if g.idles.is_empty() { vec![0] } else { g.idles.clone() };
     fn rec(g: &mut G, all: &[Id], ops: &mut Vec<Op>) {
+        let srcs: Vec<Id> = g.srcs.iter().map(|s| s.0).collect();
         for op in ops.iter_mut() {
             match op {
                 Op::CancelIdle(x) | Op::DropIdle(x) => {
                     if g.rng.chance(1, 2) {
                         *x = *g.rng.pick(all);
+                    }
+                }
+                // token and cause operations may also aim at sources created later in the
+                // program (generation only knows the earlier ones)
+                Op::Remove(x) | Op::Disable(x) | Op::Enable(x) | Op::Update(x) | Op::Ping(x) | Op::Send(x) | Op::DropPing(x) | Op::DropSender(x) => {
+                    if !srcs.is_empty() && g.rng.chance(1, 6) {
+                        *x = *g.rng.pick(&srcs);
                     }
                 }
                 _ => {}
